@@ -190,6 +190,18 @@ class SymArray(np.ndarray):
     def real(self):
         return self
 
+    def any(self, axis=None, **kw):
+        return _np_any(self, axis=axis)
+
+    def all(self, axis=None, **kw):
+        return _np_all(self, axis=axis)
+
+    def max(self, axis=None, **kw):
+        return _np_amax(self, axis=axis, **kw)
+
+    def min(self, axis=None, **kw):
+        return _np_amin(self, axis=axis, **kw)
+
     def sum(self, axis=None, **kw):
         return np.add.reduce(self, axis=axis) if axis is not None else _sum_all(self)
 
@@ -214,19 +226,19 @@ def _np_sum(a, axis=None, **kw):
     return np.add.reduce(a if isinstance(a, SymArray) else sym_view(a), axis=axis)
 
 
-def _np_amax(a, axis=None, **kw):
+def _np_amax(a, axis=None, initial=None, **kw):
     if axis is not None:
         return np.maximum.reduce(a, axis=axis)
-    acc = None
+    acc = None if initial is None else _l(initial)
     for v in np.asarray(a).reshape(-1):
         acc = _l(v) if acc is None else S.smax(acc, _l(v))
     return acc
 
 
-def _np_amin(a, axis=None, **kw):
+def _np_amin(a, axis=None, initial=None, **kw):
     if axis is not None:
         return np.minimum.reduce(a, axis=axis)
-    acc = None
+    acc = None if initial is None else _l(initial)
     for v in np.asarray(a).reshape(-1):
         acc = _l(v) if acc is None else S.smin(acc, _l(v))
     return acc
@@ -301,7 +313,26 @@ def _np_allclose(a, b, rtol=1e-5, atol=1e-8, equal_nan=False):
     return cond
 
 
+def _truth(v):
+    v = _l(v)
+    return v if v.sort == S.BOOL else S.Not(S._cmp("eq", v, S.ZERO))
+
+
+def _np_any(a, axis=None, **kw):
+    if axis is not None:
+        raise S.SymError("np.any with axis on symbolic data")
+    return S.Or(*[_truth(v) for v in np.asarray(a).reshape(-1)])
+
+
+def _np_all(a, axis=None, **kw):
+    if axis is not None:
+        raise S.SymError("np.all with axis on symbolic data")
+    return S.And(*[_truth(v) for v in np.asarray(a).reshape(-1)])
+
+
 _FUNCS = {
+    np.any: _np_any,
+    np.all: _np_all,
     np.sum: _np_sum,
     np.amax: _np_amax,
     np.max: _np_amax,
